@@ -10,7 +10,8 @@ GEN_FILES = ["Gen_types.v"]
 RULE = ("histories of 1-4 composition calls on a random parent (<= 9 nodes, some undriven buffers as attachment points) and random "
         "children (<= 7 nodes, optionally containing a flip-flop blackbox): add_subcircuit with arbitrary connection maps (child inputs "
         "fed from any net incl. nodes of earlier instances, child outputs driving 1-2 undriven buffers, unconnected io, str and list "
-        "values, strip_io on/off), repeated instantiation, add_blackbox + fill_blackbox (two instances filled in either order, nested "
+        "values, strip_io on/off; instance and pin names with dots such as core.mux0), repeated instantiation (also passing the SAME connections "
+        "dict / child / BlackBox object to every call, with a snapshot of the arguments after each call), add_blackbox + fill_blackbox (two instances filled in either order, nested "
         "fill of a child's blackbox; blackboxes whose 2-4 pins are declared in another order than the filling circuit creates them, pin "
         "names from a pool of 34; children with two blackbox instances of different types, both carried instances filled), strip_blackboxes with ignore_pins None/str/list (incl. instances a.b / a_b whose pins collide after renaming and cells "
         "whose pin names are suffixes of one another: D/SD, O/CO, q/nq on input and output side), and a rejection stream (clashing node / registry "
@@ -102,7 +103,7 @@ def scen_sub(rng):
     for j in range(k):
         if j and rng.random() < 0.4:
             child = gen_child(rng, flop=rng.random() < 0.2)
-        ops.append({"op": "sub", "sc": child, "name": f"u{j}" if rng.random() < 0.9 else rng.choice(["s", "top", "u_0"]),
+        ops.append({"op": "sub", "sc": child, "name": f"u{j}" if rng.random() < 0.8 else rng.choice(["s", "top", "u_0", f"core.u{j}", f"a.b{j}"]),
                     "conns": conn_spec(rng, child), "strip": rng.random() < 0.9})
     if any(o["sc"]["bbs"] for o in ops) and rng.random() < 0.6:
         j = rng.choice([i for i, o in enumerate(ops) if o["sc"]["bbs"]])
@@ -120,21 +121,23 @@ def scen_fill(rng):
     p = gen_parent(rng, holes=rng.randint(2, 3))
     c0 = gen_child(rng, flop=rng.random() < 0.2, clean_io=True)
     c1 = gen_child(rng, clean_io=True) if rng.random() < 0.5 else c0
-    ops = [{"op": "bb", "bb": bb_of(c0), "inst": "b0", "conns": conn_spec(rng, c0, 0.8, 0.9, bb=True)}]
+    b0 = rng.choice(["b0", "b0", "b0", "core.mux0", "x.y"])         # instance names may contain dots: inst.pin -> inst_pin by NAME
+    b1 = rng.choice(["b1", "b1", "core.mux1"])
+    ops = [{"op": "bb", "bb": bb_of(c0), "inst": b0, "conns": conn_spec(rng, c0, 0.8, 0.9, bb=True)}]
     two = rng.random() < 0.5
     if two:
-        ops.append({"op": "bb", "bb": bb_of(c1), "inst": "b1", "conns": conn_spec(rng, c1, 0.8, 0.9, bb=True)})
+        ops.append({"op": "bb", "bb": bb_of(c1), "inst": b1, "conns": conn_spec(rng, c1, 0.8, 0.9, bb=True)})
     if rng.random() < 0.3:
         sc = gen_child(rng)
         ops.append({"op": "sub", "sc": sc, "name": "u0", "conns": conn_spec(rng, sc), "strip": True})
-    fills = [{"op": "fill", "inst": "b0", "sc": c0}] + ([{"op": "fill", "inst": "b1", "sc": c1}] if two else [])
+    fills = [{"op": "fill", "inst": b0, "sc": c0}] + ([{"op": "fill", "inst": b1, "sc": c1}] if two else [])
     if rng.random() < 0.5:
         fills.reverse()
     if rng.random() < 0.25:
         ops.append({"op": "strip", "ign": rng.choice([None, None, [bb_of(c0)[1][0]] if bb_of(c0)[1] else None])})
     ops += fills
     if c0["bbs"] and rng.random() < 0.7:
-        ops.append({"op": "fill", "inst": "b0_ff0", "sc": flop_body(rng)})
+        ops.append({"op": "fill", "inst": f"{b0}_ff0", "sc": flop_body(rng)})
     return {"parent": p, "ops": ops, "kind": "fill"}
 
 
@@ -197,7 +200,7 @@ def scen_strip_suffix(rng):
     return {"parent": p, "ops": [{"op": "strip", "ign": ign}], "kind": "strip-suffix"}
 
 
-PIN_POOL = ["s", "t", "e", "d", "clk", "rst", "en", "sel", "a", "b", "cin", "D", "CK", "SE", "SD", "Q", "x", "y", "z", "in0", "in1", "in2",
+PIN_POOL = ["d.in", "q.o", "a.b", "s", "t", "e", "d", "clk", "rst", "en", "sel", "a", "b", "cin", "D", "CK", "SE", "SD", "Q", "x", "y", "z", "in0", "in1", "in2",
             "p", "q", "r", "A", "B", "S", "i", "j", "k", "din", "we", "addr"]
 
 
@@ -220,7 +223,8 @@ def scen_fill_order(rng):
     spec += [[i, [sel(rng, "anyd")], rng.random() < 0.5] for i in ins]
     if rng.random() < 0.5:
         rng.shuffle(spec)
-    ops = [{"op": "bb", "bb": ["blk", decl_in, decl_out], "inst": "u", "conns": spec}, {"op": "fill", "inst": "u", "sc": c}]
+    inst = rng.choice(["u", "u", "core.mux0", "a.b", "t.u.v"])
+    ops = [{"op": "bb", "bb": ["blk", decl_in, decl_out], "inst": inst, "conns": spec}, {"op": "fill", "inst": inst, "sc": c}]
     return {"parent": p, "ops": ops, "kind": "fill-order"}
 
 
@@ -243,12 +247,36 @@ def scen_sub_two_bbs(rng):
     c = add_cell(rng, c, "m0", "cell", cin, cout, unconnected=0.0)
     if rng.random() < 0.5:
         c["bbs"].reverse()                # which of the two is registered last
-    ops = [{"op": "sub", "sc": c, "name": "u0", "conns": conn_spec(rng, c, 0.9, 0.5), "strip": True}]
-    fills = [{"op": "fill", "inst": "u0_m0", "sc": cell_body(rng, cin, cout)}, {"op": "fill", "inst": "u0_ff0", "sc": flop_body(rng)}]
+    nm = rng.choice(["u0", "u0", "h.u0"])
+    ops = [{"op": "sub", "sc": c, "name": nm, "conns": conn_spec(rng, c, 0.9, 0.5), "strip": True}]
+    fills = [{"op": "fill", "inst": f"{nm}_m0", "sc": cell_body(rng, cin, cout)}, {"op": "fill", "inst": f"{nm}_ff0", "sc": flop_body(rng)}]
     if rng.random() < 0.5:
         fills.reverse()
     ops += fills[:rng.choice([1, 2, 2])]
     return {"parent": p, "ops": ops, "kind": "sub-two-bbs"}
+
+
+def scen_shared_args(rng):
+    """repeated instantiation passing the SAME connections dict object (and the same child / BlackBox object) to every call:
+    the arguments belong to the caller, so the second call must mean what the first one meant"""
+    p = gen_parent(rng, holes=rng.randint(0, 1))
+    with_out = rng.random() < 0.2          # with output entries the second call is (rightly) rejected: target already driven
+    if rng.random() < 0.6:
+        child = gen_child(rng, flop=rng.random() < 0.15)
+        spec = conn_spec(rng, child, 1.0, 0.9 if with_out else 0.0)
+        ops = [{"op": "sub", "sc": child, "name": "u0", "conns": spec, "strip": True}]
+        for j in range(1, rng.choice([2, 2, 3])):
+            ops.append({"op": "sub", "sc": child, "name": f"u{j}", "conns": spec, "strip": True, "reuse": True})
+    else:
+        child = gen_child(rng, clean_io=True)
+        spec = conn_spec(rng, child, 1.0, 0.9 if with_out else 0.0, bb=True)
+        ops = [{"op": "bb", "bb": bb_of(child), "inst": "b0", "conns": spec},
+               {"op": "bb", "bb": bb_of(child), "inst": "b1", "conns": spec, "reuse": True}]
+        fills = [{"op": "fill", "inst": "b0", "sc": child}, {"op": "fill", "inst": "b1", "sc": child}]
+        if rng.random() < 0.5:
+            fills.reverse()
+        ops += fills[:rng.choice([1, 2])]
+    return {"parent": p, "ops": ops, "kind": "shared-args"}
 
 
 def scen_reject(rng):
@@ -317,7 +345,8 @@ def generate(rng, tier):
     out = []
     for _ in range(n):
         r = rng.random()
-        out.append(scen_sub(rng) if r < 0.28 else scen_sub_two_bbs(rng) if r < 0.36 else scen_fill(rng) if r < 0.48 else
+        out.append(scen_sub(rng) if r < 0.22 else scen_shared_args(rng) if r < 0.30 else scen_sub_two_bbs(rng) if r < 0.36 else
+                   scen_fill(rng) if r < 0.48 else
                    scen_fill_order(rng) if r < 0.64 else scen_strip(rng) if r < 0.74 else
                    scen_strip_suffix(rng) if r < 0.84 else scen_reject(rng))
     return out
@@ -335,7 +364,7 @@ def mutate_case(rng, case):
     _MUTATE_BUDGET[0] -= 1
     k = case.get("kind", "sub").split(":")[0]
     return {"sub": scen_sub, "fill": scen_fill, "strip": scen_strip, "strip-collide": scen_strip, "strip-suffix": scen_strip_suffix,
-            "fill-order": scen_fill_order, "sub-two-bbs": scen_sub_two_bbs, "reject": scen_reject}.get(k, scen_sub)(rng)
+            "fill-order": scen_fill_order, "sub-two-bbs": scen_sub_two_bbs, "shared-args": scen_shared_args, "reject": scen_reject}.get(k, scen_sub)(rng)
 
 
 # ---------------------------------------------------------------- implementation driver
@@ -384,21 +413,41 @@ def impl(case):
     import circuitgraph as cg
     c = lib.build_circuit(case["parent"])
     steps = []
+    shared = {}
     for op in case["ops"]:
         st = {"op": op["op"], "pre": lib.dump_circuit(c)}
         exc = None
         try:
             if op["op"] == "sub":
-                sc = lib.build_circuit(op["sc"])
-                conns = _resolve(c, op["conns"])
-                st.update(sc=op["sc"], name=op["name"], conns=_norm(conns), strip=op["strip"])
-                c.add_subcircuit(sc, op["name"], dict(conns) if conns or op.get("empty_dict") else None, strip_io=op["strip"])
+                if op.get("reuse") and shared.get("sub"):
+                    sc, cd = shared["sub"]                 # the SAME child and the SAME dict object as in the previous call
+                else:
+                    sc = lib.build_circuit(op["sc"])
+                    conns = _resolve(c, op["conns"])
+                    cd = dict(conns) if conns or op.get("empty_dict") else None
+                    shared["sub"] = (sc, cd)
+                st.update(sc=lib.dump_circuit(sc), name=op["name"], conns=_norm(cd.items()) if cd else [], strip=op["strip"])
+                st["conns_after"] = st["conns"]
+                try:
+                    c.add_subcircuit(sc, op["name"], cd, strip_io=op["strip"])
+                finally:
+                    st["conns_after"] = _norm(cd.items()) if cd else []
             elif op["op"] == "bb":
-                bn, ins, outs = op["bb"]
-                bb = cg.BlackBox(bn, ins, outs)
-                conns = _resolve(c, op["conns"])
-                st.update(bb=op["bb"], inst=op["inst"], conns=_norm(conns), ins=list(bb.inputs()), outs=list(bb.outputs()))
-                c.add_blackbox(bb, op["inst"], dict(conns) if conns else None)
+                if op.get("reuse") and shared.get("bb"):
+                    bb, cd = shared["bb"]                  # the SAME BlackBox object and the SAME dict object
+                else:
+                    bn, ins, outs = op["bb"]
+                    bb = cg.BlackBox(bn, ins, outs)
+                    conns = _resolve(c, op["conns"])
+                    cd = dict(conns) if conns else None
+                    shared["bb"] = (bb, cd)
+                bbd = lambda: [bb.name, sorted(bb.inputs()), sorted(bb.outputs())]
+                st.update(bb=bbd(), inst=op["inst"], conns=_norm(cd.items()) if cd else [], ins=list(bb.inputs()), outs=list(bb.outputs()))
+                st["conns_after"], st["bb_after"] = st["conns"], st["bb"]
+                try:
+                    c.add_blackbox(bb, op["inst"], cd)
+                finally:
+                    st["conns_after"], st["bb_after"] = (_norm(cd.items()) if cd else []), bbd()
             elif op["op"] == "fill":
                 sc = lib.build_circuit(op["sc"])
                 st.update(inst=op["inst"], sc=op["sc"])
@@ -444,12 +493,14 @@ def cconns(conns):
 def cstep(st):
     op = st["op"]
     if op == "sub":
-        return "SSub %s %s %s %s %s %s %s" % (ccirc(st["pre"]), ccirc(st["sc"]), cs(st["name"]), cconns(st["conns"]), cb(st["strip"]),
-                                             ccirc(st["post"]), coutcome(st["exc"]))
+        return "SSub %s %s %s %s %s %s %s %s" % (ccirc(st["pre"]), ccirc(st["sc"]), cs(st["name"]), cconns(st["conns"]), cb(st["strip"]),
+                                                ccirc(st["post"]), coutcome(st["exc"]), cconns(st["conns_after"]))
     if op == "bb":
         bn, ins, outs = st["bb"]
-        return "SBb %s (mk_bb %s %s %s) %s %s %s %s %s %s" % (ccirc(st["pre"]), cs(bn), csl(ins), csl(outs), cs(st["inst"]), csl(st["ins"]),
-                                                            csl(st["outs"]), cconns(st["conns"]), ccirc(st["post"]), coutcome(st["exc"]))
+        bn2, ins2, outs2 = st["bb_after"]
+        return "SBb %s (mk_bb %s %s %s) %s %s %s %s %s %s (mk_bb %s %s %s) %s" % (
+            ccirc(st["pre"]), cs(bn), csl(ins), csl(outs), cs(st["inst"]), csl(st["ins"]), csl(st["outs"]), cconns(st["conns"]),
+            ccirc(st["post"]), coutcome(st["exc"]), cs(bn2), csl(ins2), csl(outs2), cconns(st["conns_after"]))
     if op == "fill":
         return "SFill %s %s %s %s %s" % (ccirc(st["pre"]), cs(st["inst"]), ccirc(st["sc"]), ccirc(st["post"]), coutcome(st["exc"]))
     res = "(Ok %s)" % ccirc(st["res"]) if st["exc"] is None else "(Raise %s)" % cexn(st["exc"])
